@@ -58,6 +58,35 @@ def rule_type_round_trip(ctx: Ctx, repo: Repo) -> None:
         encodings[key] = show(t)
 
 
+def rule_structure_only(ctx: Ctx, repo: Repo) -> None:
+    """R-C08.6: encoding is a function of the type's structure only - not of what was encoded earlier in the same
+    process.  Types are encoded in pairs within one interpreter state (module-level objects persist)."""
+    fi = repo.fn(ENC, "type_to_json")
+    p = fi.positional_params()[0]
+    a1 = CM.anon_td({"a": CM.INT})
+    a2 = CM.anon_td({"b": CM.STR, "c": CM.INT})
+    sel = [CM.INT, CM.USER, CM.gen("List", CM.INT), CM.gen("List", CM.STR), CM.gen("Union", CM.INT, CM.STR), a1, a2, CM.gen("List", a1), CM.gen("List", a2),
+           CM.gen("Dict", CM.STR, a1), CM.gen("Dict", CM.STR, a2), CM.gen("Union", a1, CM.NONE_T), CM.gen("Union", a2, CM.NONE_T), CM.gen("Tuple", a1, a2), CM.gen("Tuple", a2, a1)]
+    alone = {}
+    for t in sel:
+        k, enc = CodecScenario(repo, ENC, "type_to_json").result({p: t})
+        alone[show(t)] = (k, enc)
+    n = 0
+    for t1 in sel:
+        sc1 = CodecScenario(repo, ENC, "type_to_json")
+        sc1.result({p: t1})
+        for t2 in sel:
+            if t1 is t2:
+                continue
+            sc2 = CodecScenario(repo, ENC, "type_to_json")
+            k2, enc2 = sc2.result({p: t2}, carry=sc1.last_state)
+            n += 1
+            ctx.check((k2, enc2) == alone[show(t2)], "R-C08.6", f"{ENC}.type_to_dict",
+                      "the encoding of a type does not depend on which types were encoded before it in the same process",
+                      construct=f"after encoding {show(t1)[:60]}, {show(t2)[:60]} encodes differently than on its own")
+    ctx.floor("R-C08.6", "ordered pairs of encodings sharing module state", n, 150)
+
+
 def rule_trace_round_trip(ctx: Ctx, repo: Repo) -> None:
     ft = repo.fn(ENC, "CallTraceRow.from_trace")
     tt = repo.fn(ENC, "CallTraceRow.to_trace")
@@ -74,6 +103,9 @@ def rule_trace_round_trip(ctx: Ctx, repo: Repo) -> None:
                                         __wrapped__=R("func", __module__=K("pkg.mod"), __qualname__=K("decorated"), __name__=K("decorated"), __wrapped__=wrapped)))
     cm = CM.func("pkg.mod", "User.make")
     world.add("pkg.mod", "User.make", R("boundmethod", func=cm))
+    cmw = CM.func("pkg.mod", "User.make_checked")
+    world.add("pkg.mod", "User.make_checked", R("boundmethod", func=R("func", __module__=K("pkg.mod"), __qualname__=K("User.make_checked"), __name__=K("make_checked"), __wrapped__=cmw)))
+    funcs.append(cmw)
     pg = CM.func("pkg.mod", "User.size")
     world.add("pkg.mod", "User.size", CM.prop(pg))
     funcs += [wrapped, cm, pg]
@@ -219,6 +251,7 @@ def run(ctx: Ctx, repo: Repo, tier: str) -> None:
               "mypy_extensions.TypedDict(name, fields) builds a TypedDict with those annotations (total=True)",
               "sqlite: INSERT ... VALUES (?, ...) binds parameters to the table's columns in declaration order; SELECT returns columns in list order")
     rule_type_round_trip(ctx, repo)
+    rule_structure_only(ctx, repo)
     rule_trace_round_trip(ctx, repo)
     rule_row_shape(ctx, repo)
     rule_hidden_builtins(ctx, repo)
